@@ -101,6 +101,20 @@ def run(chk):
         else:
             chk.ok("C12.rej.utf8", call, "UTF-8 is decoded strictly")
 
+    # ---- C12.reset: completing a fragmented message resets the per-message opcode on every path to its delivery ----
+    gh = cfg_of(hf.node)
+    conts = [n for n in gh.nodes if n.kind == "test" and norm.raw(n.ast) == "opcode == OP_CODE_CONTINUATION" and PC.has_lit(PC.pc(n.ast), "fin", True) is not None]
+    deliver = [n for n in gh.nodes if K.node_has(n, "self.queue.feed_data($M)")]
+    if conts and deliver:
+        K.must_pass(chk, "C12.reset", hf, None, lambda n: K.node_has(n, "self._opcode = OP_CODE_NOT_SET"), "a final continuation frame resets the message opcode before the message is delivered",
+                    start_edges=[(c, "T") for c in conts], targets=lambda n: n in deliver, construct="if opcode == OP_CODE_CONTINUATION: opcode = self._opcode", missing="self._opcode = OP_CODE_NOT_SET")
+    else:
+        chk.violation("C12.reset", hf, "if opcode == OP_CODE_CONTINUATION (final frame)", "reset of self._opcode", "cannot find the completion of a fragmented message")
+    starts = [s2 for s2, _b in K.stmts(hf, "self._opcode = opcode")]
+    if starts and PC.has_lit(PC.pc(starts[0]), "fin", False) is not None and PC.has_lit(PC.pc(starts[0]), "opcode == OP_CODE_CONTINUATION", False) is not None:
+        chk.ok("C12.reset", starts[0], "the message opcode is recorded only by a non-final, non-continuation frame (start of a fragmented message)")
+    else:
+        chk.violation("C12.reset", hf, "self._opcode = opcode", "!(fin) & !(opcode == OP_CODE_CONTINUATION)", "the fragmented-message opcode is recorded under the wrong condition")
     # ---- C12.codes -----------------------------------------------------------------------------------------
     inv = [(n, cl) for n, c, cl, u, d in R2 if "Invalid close code" in norm.raw(n)]
     if not inv:
